@@ -55,6 +55,40 @@ def guarded_by_edges(b, call_bb):
     return call_bb not in reachable_without(b, edges)
 
 
+def tree_twin_counts(ctx, run, rule='R12.2'):
+    """tree twin: for two arrays no answer derives from comparing their lengths (containment ignores multiplicity)"""
+    f = ctx.facts
+    b = f.bodies.get('functions::contains_value')
+    if b is None:
+        return
+    vs = [v['name'] for v in f.adts.get('value::Value', {}).get('variants', [])]
+    if 'Array' not in vs:
+        return
+    ai = vs.index('Array')
+    paths, loops = editing.region_paths(b)
+    bad = None
+    n = 0
+    for q in paths:
+        if q.end[0] != 'return' or q.ret is None or q.ret[0] != 'const':
+            continue
+        arr = [c for c in q.conds if c[0][0] == 'discr' and c[1] == 'eq' and c[2] == ai]
+        if len(arr) < 1:
+            continue
+        n += 1
+        for c in q.conds:
+            t_ = c[0]
+            if t_[0] == 'bin' and t_[1] in ('Lt', 'Le', 'Gt', 'Ge', 'Ne', 'Eq') and isinstance(c[2], bool):
+                sides = [any(s_[0] == 'call' and canon(s_[1]).split('::')[-1] == 'len' and 'Vec' in s_[1] for s_ in subterms(x)) for x in (t_[2], t_[3])]
+                if all(sides):
+                    bad = (show(t_)[:80], c[2], q.ret[1])
+    loc = f'{b.file}:{b.line}'
+    if bad:
+        run.violation(rule, b.path, 'array-counts', f'for two arrays the result {bad[2]} is returned after comparing their lengths ({bad[0]} = {bad[1]}): array containment ignores multiplicity, '
+                      'and the byte walker has no such test, so JSON text and its encoding disagree', loc)
+    elif n:
+        run.proved(rule, b.path, 'array-counts', 'no result for two arrays depends on comparing their lengths', loc)
+
+
 def tree_twin_guards(ctx, run, rule='R12.2'):
     f = ctx.facts
     # ---- R12.2 tree twin: recursion guards
@@ -215,5 +249,22 @@ def check(ctx, run):
                           '([1] contains [1,1]), so the counts say nothing; the tree implementation has no such test', f'{b.file}:{b.line}')
         elif nret:
             run.proved('R12.2', b.path, 'array-counts', 'no result for two arrays depends on comparing their element counts', f'{b.file}:{b.line}')
+    # object members are looked up under exactly the same key: no case folding in the walker
+    if b is not None:
+        bad = []
+        n_look = 0
+        for pth in sorted(x for x in f.bodies if x == b.path or x.startswith(b.path + '::{closure')):
+            for bb_, t_ in f.bodies[pth].calls():
+                if called(callee_name(t_), 'functions::get_jentry_by_name') and t_['args']:
+                    n_look += 1
+                    a_ = t_['args'][-1]
+                    if not (a_['k'] == 'const' and a_.get('val') in (False, 0)):
+                        bad.append(f"{t_.get('file')}:{t_.get('line')}")
+        if bad:
+            run.violation('R12.2', b.path, 'same-key', f'the member lookup at {bad} is not called with ignore_case = false: an object is then reported to contain a member whose key differs in letter case, '
+                          'which the tree implementation (exact map lookup) does not', f'{b.file}:{b.line}')
+        elif n_look:
+            run.proved('R12.2', b.path, 'same-key', f'{n_look} member lookup(s), all case-sensitive', f'{b.file}:{b.line}')
+    tree_twin_counts(ctx, run, 'R12.2')
     dispatch.r11_1(ctx, run, rule='R12.3/R11.1', only={'functions::contains'})
     return report.finish(run, level='other', explanation=EXPLANATION, assumptions=["A1: valid documents"])
